@@ -129,6 +129,12 @@ CHECKS = {
             "every data request is answered with the requested id and offset and buf[..read_at(file_of(id), buf, offset)] with the configured "
             "block size; the five refusal points end the upload with one error and no write; the raw payload codec is the identity.",
             "Bit-identity with the disk content, short reads and the id table vs Feig's manual are not decided. " + TB),
+    "C12": ("translation_validation", "5.12",
+            "generated-program grid over the derive attribute grammar, type-checked with the real macro under the MIR driver; extracted encoder/decoder layouts compared with the generator's own description + C01-a/e, C13, C02-c rules per struct",
+            "Quick: 150 generated structs (110 single-field grid points sampled by VERIF_SEED + 40 random structs up to 8 fields / depth 3); "
+            "thorough: the full single-field grid (1311 structs) + 300 random structs. For each, encoder layout == declared layout == decoder "
+            "layout, encoder/decoder agree, tag-loop rules, loop termination, suffix contract and control field. Programs are never executed.",
+            "The quantifier over programs is sampled (quick) / bounded-exhaustive for single fields (thorough); value-level inverse not decided. " + TB),
 }
 
 NOT_YET = "check not yet built in this commit (under construction, see DESIGN.md section 10)"
@@ -156,7 +162,7 @@ def main():
     na = [{"property_id": p, "reason": NA.get(p, NOT_YET)} for p in props if p not in CHECKS]
     m = {
         "version": 1,
-        "setup_cmd": "python3 analyses/facts.py",
+        "setup_cmd": "python3 analyses/facts.py --setup",
         "hooks": {
             "guard": "zvt_verif",
             "enable": "none needed: the static analysis reads /repo's working tree as is; no hook commits exist",
